@@ -286,7 +286,8 @@ def seek_case(rng, mode, allow_past_end=False):
             continue
         if r < 0.4:
             T = rng.choice(list(SN_MAX))
-            cls_p = rng.choice(["zero", "small", "inblock", "boundary", "big32", "big31", "big64", "end", "back"])
+            cls_p = rng.choice(["zero", "small", "inblock", "boundary", "big32", "big31", "big64", "end", "back"] +
+                               (["bigblock", "bigblock", "bigblock"] if counter_bits(mode) > 64 else []))
             if cls_p == "zero":
                 p = 0
             elif cls_p == "small":
@@ -301,6 +302,11 @@ def seek_case(rng, mode, allow_past_end=False):
                 p = 2**31 + rng.randrange(-3 * bs, 3 * bs)
             elif cls_p == "big64":
                 p = 2**64 + rng.randrange(-3 * bs, 3 * bs)
+            elif cls_p == "bigblock":
+                # block counters beyond 2^64 (128-bit counters only): anything kept in 64 bits about the position collapses here
+                T = "u128"
+                blk = rng.choice([2 ** 64, 2 ** 64 + rng.randrange(0, 2 ** 20), rng.randrange(2 ** 64, 2 ** 100), 3 * 2 ** 64 + 5])
+                p = blk * bs + rng.choice([0, rng.randrange(0, bs)])
             elif cls_p == "end":
                 p = lim - rng.randrange(1, 4 * bs)
             else:
